@@ -37,11 +37,13 @@ package fsnotify
 //@        forall(k, int, has(open, k) ==> has(w.watches.wd, k))
 // listedDirs: directories whose entries have been listed and marked as seen (watchDirectoryFiles ran to completion for them)
 //@ ghost listedDirs set[string]
-//@ pred TabOK(ws *watches) := forall(k, int, has(ws.wd, k) ==> ws.wd[k].wd == k) && forall(d, string, has(ws.byDir, d) ==> ws.byDir[d] != nil)
+//@ pred TabOK(ws *watches) := forall(k, int, has(ws.wd, k) ==> ws.wd[k].wd == k) && forall(d, string, has(ws.byDir, d) ==> ws.byDir[d] != nil) &&
+//@        forall(k, int, has(ws.wd, k) ==> has(ws.path, ws.wd[k].name) && ws.path[ws.wd[k].name] == k)
 
 //@ func (w *watches) remove(fd int, path string) (isDir bool)
 //@   requires w.wd != nil && w.path != nil && w.byDir != nil && w.seen != nil && w.byUser != nil && ref(w.byUser) != ref(w.seen) && !held(watches.mu)
 //@   requires TabOK(w)
+//@   requires forall(k, int, has(w.wd, k) && k != fd ==> w.wd[k].name != path)                                                 [C17] "the path key that is dropped is not the one another descriptor is listed under"
 //@   ensures TabOK(w)
 //@   ensures w.path == del(old(w.path), path) && w.byUser == del(old(w.byUser), path) && w.seen == del(old(w.seen), path)      [C17 C18] "removing a watch clears its path, user mark and seen mark"
 //@   ensures forall(k, int, has(w.wd, k) <==> (has(old(w.wd), k) && k != fd)) && forall(k, int, has(w.wd, k) ==> w.wd[k] == old(w.wd)[k])   [C17] "and its descriptor entry, leaving the others alone"
@@ -51,6 +53,7 @@ package fsnotify
 //@ func (w *watches) add(path string, linkPath string, fd int, isDir bool)
 //@   requires w.wd != nil && w.path != nil && w.byDir != nil && w.seen != nil && w.byUser != nil && ref(w.byUser) != ref(w.seen) && !held(watches.mu)
 //@   requires TabOK(w)
+//@   requires forall(k, int, has(w.wd, k) && w.wd[k].name == path ==> k == fd)                                                 [C17] "a path is entered under one descriptor only: a second descriptor for a listed path would orphan the first"
 //@   ensures TabOK(w)
 //@   ensures has(w.wd, fd) && w.wd[fd].wd == fd && w.wd[fd].name == path && w.wd[fd].linkName == linkPath && w.wd[fd].isDir == isDir   [C17]
 //@   ensures forall(k, int, k != fd ==> (has(w.wd, k) <==> has(old(w.wd), k)) && w.wd[k] == old(w.wd)[k])                        [C17]
